@@ -94,3 +94,13 @@ Theorem C05_build_refusals : forall (T E : Type) (sh : shape T E) t p, (exists x
   exists t1 p1, sh_finish sh t p = Ok (t1, p1) /\ p_name p1 <> [] /\ cs_well_formed cfg (p_quals p1).
 Proof. intros T E sh t p. apply build_succeeds_iff. sc. Qed.
 Print Assumptions C05_build_refusals.
+(* the subpath loop: the first kept piece that is not valid UTF-8, hides a '/', or decodes to a dot segment (an encoded '.' or '..') is refused *)
+Theorem C05_hidden_slash_encoded_dot_or_bad_utf8_in_subpath : forall good b rest,
+  Forall (fun s => utf8_valid (pdecode s) = true /\ (mem c_slash (pdecode s) || is_dotseg (pdecode s)) = false) (kept (fun s => is_empty s || is_dotseg s) good) ->
+  (is_empty b || is_dotseg b) = false -> (utf8_valid (pdecode b) = false \/ (mem c_slash (pdecode b) || is_dotseg (pdecode b)) = true) ->
+  rebuild_segs (good ++ b :: rest) (fun s => is_empty s || is_dotseg s) (fun d => mem c_slash d || is_dotseg d) [] = Err EInvalidEscape.
+Proof. intros good b rest H1 H2 H3. apply rebuild_segs_first_bad; assumption. Qed.
+Print Assumptions C05_hidden_slash_encoded_dot_or_bad_utf8_in_subpath.
+Theorem C05_subpath_is_that_loop : forall s, decode_subpath s = rebuild_segs (split c_slash (trim c_slash s)) (fun s => is_empty s || is_dotseg s) (fun d => mem c_slash d || is_dotseg d) [].
+Proof. reflexivity. Qed.
+Print Assumptions C05_subpath_is_that_loop.
